@@ -120,6 +120,9 @@ pub fn oracle(ctx: &mut Ctx, c: &Case) -> Check {
         if m.hdlr_last {
             ctx.count("hdlr-after-ilst");
         }
+        if m.large_seed != 0 {
+            ctx.count("64-bit-headers-in-udta-subtree");
+        }
     }
     if had_unknown {
         ctx.count("has-unknown-items-or-atoms");
